@@ -219,7 +219,7 @@ def _ob(n, fixed=()):
         "pres": pres,
         "call": "H.names_prop(steps, root_mode, root_own, in_if)",
         "timeout": 300, "timeout_thorough": 1200,
-        "tiers": ("quick", "thorough") if n <= 4 else ("thorough",),
+        "tiers": ("quick", "thorough") if n <= 3 else ("thorough",),
         "functions": ["onnxscript.nn._module_list:ModuleList._register_child", "onnxscript.nn._module_list:ModuleList._set_name",
                       "onnxscript.nn._sequential:Sequential._register_child", "onnxscript.nn._sequential:Sequential._set_name",
                       "onnxscript.nn._module:Module.__setattr__", "onnxscript.nn._module:Module.__call__",
@@ -230,5 +230,6 @@ def _ob(n, fixed=()):
     }
 
 
-OBLIGATIONS = ([_ob(1), _ob(2), _ob(3)] + [_ob(4, (k,)) for k in range(3)]
+# sliced on the leading steps so that every obligation stays near 1200 histories x 12 root configurations (about 30 histories/s)
+OBLIGATIONS = ([_ob(1), _ob(2)] + [_ob(3, (k,)) for k in range(NOPS)] + [_ob(4, (a, b)) for a in range(3) for b in range(NOPS)]
                + [_ob(5, (a, b)) for a in range(3) for b in range(NOPS)])
